@@ -201,10 +201,23 @@ Section Loader.
   Definition dec_labels_from (i : nat) (l : list (Z * Z)) : list (Z * Z) :=
     (firstn i l ++ map (fun c => (fst c - 1, snd c)%Z) (skipn i l))%list.
 
+  Definition slice {A} (from n : nat) (l : list A) : list A := firstn n (skipn from l).
+
+  (* the count rows of the events that are read, and the label of the first of them *)
+  Definition sel_counts (sel : selector) (cnts : list (Z * Z)) : list (Z * Z) :=
+    match sel with
+    | SelAll => cnts
+    | SelOne k => slice (Z.to_nat k) 1 cnts
+    | SelRange a b => slice (Z.to_nat a) (Z.to_nat (b - a + 1)) cnts
+    end.
+  Definition sel_first (sel : selector) : Z :=
+    match sel with SelAll => 0 | SelOne k => k | SelRange a _ => a end%Z.
+
   Record lstate := { plist : list (list particle); data : list particle;
                      counts : list (Z * Z); cut : Z }.
 
-  Definition close_event (st : lstate) : result lstate :=
+  (* [first]: label of the first event that is read (0 unless an event selection is given) *)
+  Definition close_event (first : Z) (st : lstate) : result lstate :=
     let old := List.length (data st) in
     let k := List.length (plist st) in
     let d := match flt with Some f => f (data st) | None => data st end in
@@ -212,7 +225,7 @@ Section Loader.
           | None => Ok (counts st)
           | Some _ =>
             if negb (List.length d =? 0)%nat || (old =? 0)%nat
-            then set_row k (Z.of_nat k, Z.of_nat (List.length d)) (counts st)
+            then set_row k (first + Z.of_nat k, Z.of_nat (List.length d))%Z (counts st)
             else if (k <? List.length (counts st))%nat
                  then Ok (dec_labels_from k (delete_row k (counts st)))
                  else Err IndexError
@@ -221,7 +234,7 @@ Section Loader.
     then Ok {| plist := (plist st ++ [d])%list; data := []; counts := c'; cut := cut st |}
     else Ok {| plist := plist st; data := []; counts := c'; cut := (cut st + 1)%Z |}.
 
-  Fixpoint read_loop (fmt : string) (attrs : list string) (n : nat) (ls : list line) (st : lstate)
+  Fixpoint read_loop (first : Z) (fmt : string) (attrs : list string) (n : nat) (ls : list line) (st : lstate)
     : result lstate :=
     match n with
     | O => Ok st
@@ -230,17 +243,16 @@ Section Loader.
       | [] => Err IndexError                       (* readline() returned '' *)
       | l :: t =>
         match kind_loop l with
-        | KSkip => read_loop fmt attrs m t st
-        | KEnd => st' <- close_event st ;; read_loop fmt attrs m t st'
+        | KSkip => read_loop first fmt attrs m t st
+        | KEnd => st' <- close_event first st ;; read_loop first fmt attrs m t st'
         | KBad => Err ValueError
         | KRow =>
           p <- mk_particle fmt attrs l ;;
-          read_loop fmt attrs m t {| plist := plist st; data := (data st ++ [p])%list; counts := counts st; cut := cut st |}
+          read_loop first fmt attrs m t {| plist := plist st; data := (data st ++ [p])%list; counts := counts st; cut := cut st |}
         end
       end
     end.
 
-  Definition slice {A} (from n : nat) (l : list A) : list A := firstn n (skipn from l).
 
   Record loaded := { l_events : list (list particle); l_nevents : Z; l_counts : list (Z * Z);
                      l_format : string; l_attrs : list string; l_footers : list line }.
@@ -265,13 +277,12 @@ Section Loader.
                   | l0 :: _, S _ => if negb (has "#" l0) && negb (has "out" l0) then Err ValueError else Ok tt
                   | _, _ => Ok tt
                   end ;;
-      st <- read_loop fmt attrs (Z.to_nat nr) body {| plist := []; data := []; counts := cnts; cut := 0 |} ;;
+      st <- read_loop (sel_first sel) fmt attrs (Z.to_nat nr) body
+              {| plist := []; data := []; counts := sel_counts sel cnts; cut := 0 |} ;;
       let nev' := (nev - cut st)%Z in
       fin <- match sel with
              | SelAll => if (Z.of_nat (List.length (plist st)) =? nev')%Z then Ok (nev', counts st) else Err IndexError
-             | SelOne k => match nth_error (counts st) (Z.to_nat k) with
-                           | Some c => Ok (1%Z, [c]) | None => Err IndexError end
-             | SelRange a b => Ok ((b - a + 1)%Z, slice (Z.to_nat a) (Z.to_nat (b - a + 1)) (counts st))
+             | _ => Ok (Z.of_nat (List.length (plist st)), counts st)
              end ;;
       Ok {| l_events := match plist st with [] => [[]] | pl => pl end;
             l_nevents := fst fin; l_counts := snd fin; l_format := fmt; l_attrs := attrs;
@@ -306,13 +317,12 @@ Section Loader.
                   | l0 :: _, S _ => if negb (has "#" l0) && negb (has "out" l0) then Err ValueError else Ok tt
                   | _, _ => Ok tt
                   end ;;
-      st <- read_loop fmt attrs (Z.to_nat nr) body {| plist := []; data := []; counts := cnts; cut := 0 |} ;;
+      st <- read_loop (sel_first sel) fmt attrs (Z.to_nat nr) body
+              {| plist := []; data := []; counts := sel_counts sel cnts; cut := 0 |} ;;
       let nev' := (nev - cut st)%Z in
       fin <- match sel with
              | SelAll => if (Z.of_nat (List.length (plist st)) =? nev')%Z then Ok (nev', counts st) else Err IndexError
-             | SelOne k => match nth_error (counts st) (Z.to_nat k) with
-                           | Some c => Ok (1%Z, [c]) | None => Err IndexError end
-             | SelRange a b => Ok ((b - a + 1)%Z, slice (Z.to_nat a) (Z.to_nat (b - a + 1)) (counts st))
+             | _ => Ok (Z.of_nat (List.length (plist st)), counts st)
              end ;;
       Ok {| l_events := match plist st with [] => [[]] | pl => pl end;
             l_nevents := fst fin; l_counts := snd fin; l_format := fmt; l_attrs := attrs;
